@@ -52,6 +52,9 @@ def generate(rng, index, tier):
     addrs = [a & 0xffffffffffffffff for a in addrs]          # a load address is one 64-bit word of the record
     images = [{'addr': a, 'uuid': worlds.draw_uuid(rng)} for a in addrs]
     for im in images:
+        if im['addr'] == 0 and rng.chance(0.5):
+            im['uuid'] = '00' * 16        # an image at address 0 with the null identity: every field of its record is zero
+    for im in images:
         if rng.chance(0.12):
             im['uuid'] = rng.pick(images)['uuid']       # the same identity at another address (a shared cache mapped twice)
     nann = rng.randint(1, 2)
@@ -115,6 +118,7 @@ def generate(rng, index, tier):
             uhdr = (rng.randrange(0, 512), nframes) if rng.chance(0.88) else None
             hdr_tail = [rng.randrange(0, 9), rng.randrange(0, 9)] if rng.chance(0.25) else [0, 0]      # the header's other two words: not the count
             extra = []
+            bracket = None
             if rng.chance(0.12):
                 # somebody (this thread or not) logs the end of a thread's life naming a sampled thread, while the sample is open
                 extra.append({'k': 'one', 'name': 'TRACE_DATA_THREAD_TERMINATE', 'q': 0, 'a': [rng.pick([500, 501, 500 + si]), 0, 0, 0]})
@@ -127,8 +131,20 @@ def generate(rng, index, tier):
             if rng.chance(0.3):
                 near = [k for k, _v in worlds.catalog()['undecoded'] if (k >> 16) in (0x2502, 0x2501, 0x2500)] or [0x25020014]
                 extra.append({'k': 'raw', 'id': rng.pick(near), 'q': 0, 'a': rng.words()})   # kernel-stack header/data, stack error, ... (named, not decoded)
+            if rng.chance(0.12):
+                # a START..END pair of one of those neighbouring codes somewhere inside the sample (a bracket the sampler logs
+                # around part of its work): the stack records lie inside it, outside it, or on both sides
+                near = [k for k, _v in worlds.catalog()['undecoded'] if (k >> 16) in (0x2502, 0x2501, 0x2500)] or [0x25020014]
+                bid = rng.pick(near)
+                bracket = [{'k': 'raw', 'id': bid, 'q': 1, 'a': rng.words()}, {'k': 'raw', 'id': bid, 'q': 2, 'a': rng.words()}]
             smp = worlds.op_sample(rng, flags=flags, thd=(77, rng.pick([500 + si, 400, 501 - si, 31337])) if rng.chance(0.4) else None, uhdr=uhdr,
                                    udata=rows, extra=extra)
+            if bracket:
+                i_ = rng.randrange(len(smp['in']) + 1)
+                j_ = rng.randrange(i_, len(smp['in']) + 1)
+                smp['in'].insert(j_, bracket[1])
+                smp['in'].insert(i_, bracket[0])
+                bracket = None
             for sub in smp['in']:
                 if sub.get('name') == 'PERF_STK_UHdr':
                     sub['a'][2], sub['a'][3] = hdr_tail
